@@ -758,7 +758,7 @@ class Interp:
             "bool": self.b_bool, "int": int, "float": float, "str": str, "range": range, "zip": lambda *a: list(zip(*a)), "enumerate": lambda x: list(enumerate(x)),
             "sorted": sorted, "reversed": lambda x: list(reversed(x)), "list": list, "tuple": tuple, "set": set, "dict": dict, "any": any, "all": all,
             "callable": lambda x: isinstance(x, Closure) or callable(x), "type": self.b_type, "map": lambda f, xs: [self.call(f, [x]) for x in self.iterate(xs)],
-            "complex": complex,
+            "complex": complex, "sum": self.b_sum,
         }
         if n.id in builtin:
             return builtin[n.id]
@@ -1122,6 +1122,12 @@ class Interp:
         if isinstance(v, AType):
             return ClassRef("typesystem.py", self.repo.find("typesystem.py", "Type"))
         return TypeSet(pytypes_of(v) - ({"int"} if isinstance(v, bool) else set()))
+
+    def b_sum(self, xs, start=0):
+        acc = start
+        for x in self.iterate(xs):
+            acc = acc + x
+        return acc
 
     def b_isinstance(self, v, t):
         if isinstance(t, NPDtype):
